@@ -125,7 +125,7 @@ func init() {
 			Rets:      map[string]hint{"s.isPositionInTimeFor": {"cache", "bool,opaque"}},
 			LoopMarks: map[int]act{1: {Tag: 2}}},
 		target{Dir: mdir, Func: "DefaultMetricSearcher.getOffsetStartAndFileIdx", Name: "ml_getOffsetStartAndFileIdx_step", IO: true,
-			LoopBody: 1, LoopAny: true,
+			LoopBody: 1, LoopAny: true, Shape: "leaf_flow (Z * Z * Z) (Z * Z)",
 			Hints: map[string]hint{
 				"v == s.cachedPos.metricFilename": {"name_eq", "bool"},
 				"s.cachedPos.curOffsetInIdx":      {"cached_off", "uint64"}},
@@ -167,7 +167,6 @@ func init() {
 		target{Dir: mdir, Func: "defaultMetricLogReader.readMetricsInOneFileByEndTime", Name: "ml_readByEndTime_step", IO: true, LoopBody: 1,
 			Hints: map[string]hint{
 				"bufio.NewReaderSize(file, 8192)": {"", "opaque"},
-				"err == io.EOF":                   {"eof", "bool"},
 				"item.Timestamp":                  {"item_ts", "uint64"},
 				`resource == ""`:                  {"res_empty", "bool"},
 				"resource == item.Resource":       {"res_eq", "bool"}},
@@ -176,7 +175,6 @@ func init() {
 		target{Dir: mdir, Func: "defaultMetricLogReader.readMetricsInOneFile", Name: "ml_readMaxLines_step", IO: true, LoopBody: 1,
 			Hints: map[string]hint{
 				"bufio.NewReaderSize(file, 8192)": {"", "opaque"},
-				"err == io.EOF":                   {"eof", "bool"},
 				"item.Timestamp":                  {"item_ts", "uint64"}},
 			Acts: readerActs, Rets: readerRets, LenSlices: []string{"items"}, NilRes: []string{"[]*base.MetricItem"}},
 		// getLatestSecond's nil / empty test is a hint; the arithmetic is the division
@@ -230,7 +228,7 @@ func init() {
 			return t
 		}(),
 		// the *RulesUpdater functions: 1 = ClearRules (its error is the result), 2 = rules = append(rules, &v) for each
-		// element of a []Rule, 3 = rules = val (a []*Rule), 4 = LoadRules(rules); error 2 = UpdatePropertyError
+		// element of a []Rule, 4 = LoadRules(rules); error 2 = UpdatePropertyError (which local holds the list is not an effect: not recorded)
 		updaterTarget("FlowRulesUpdater", "ds_FlowUpdater", "flow", "flow"),
 		updaterTarget("SystemRulesUpdater", "ds_SystemUpdater", "system", "system"),
 		updaterTarget("CircuitBreakerRulesUpdater", "ds_BreakerUpdater", "cb", ""),
@@ -241,9 +239,7 @@ func init() {
 		// select_case 0 = a file event, 1 = a watcher error, 2 = closeChan.  Trace: 1 = s.Handle(nil), 2 = watcher.Remove(path),
 		// 9 = the retry loop (marked; its own step below), 3 = s.Close(), 4 = doReadAndUpdate, 5 = watcher.Close() (deferred: at every return)
 		target{Dir: ddir + "/file", Func: "RefreshableFileDataSource.Initialize", Name: "ds_file_watch_step", IO: true, Lit: 1, LoopBody: 1,
-			Hints: map[string]hint{
-				"ev.Op&fsnotify.Rename == fsnotify.Rename": {"is_rename", "bool"},
-				"ev.Op&fsnotify.Remove == fsnotify.Remove": {"is_remove", "bool"}},
+			Hints:     map[string]hint{},
 			Acts:      fileActs,
 			Rets:      map[string]hint{"s.Handle": {"handle_err", "opaque"}, "s.doReadAndUpdate": {"read_err", "opaque"}},
 			SeqHints:  map[string]bool{"s.Handle": true},
@@ -263,8 +259,7 @@ func init() {
 }
 
 var findOffsetHints = map[string]hint{
-	"formMetricIdxFileName(filename)": {"", "opaque"},
-	"err == io.EOF":                   {"eof", "bool"}}
+	"formMetricIdxFileName(filename)": {"", "opaque"}}
 var findOffsetActs = map[string]act{
 	"os.Stat":           {Tag: 3},
 	"os.Open":           {Tag: 4},
@@ -327,8 +322,7 @@ func updaterTarget(fn, name, pkg, valPkg string) target {
 		Rets: map[string]hint{
 			pkg + ".ClearRules": {"clear_err", "error"},
 			pkg + ".LoadRules":  {"load", "opaque,opaque"}},
-		IOStores: map[string]act{"rules": {Tag: 3}},
-		Errs:     map[string]int{"NewError": 2}}
+		Errs: map[string]int{"NewError": 2}}
 	if valPkg != "" {
 		t.Hints["data.([]"+valPkg+".Rule)"] = hint{"", "opaque"}
 		t.Hints["data.([]"+valPkg+".Rule) ok"] = hint{"is_values", "bool"}
